@@ -80,6 +80,7 @@ type world struct {
 	delivered []dlv
 	pubs      []pubRec
 	stops     []stopRec
+	starts    []stopRec // re-starts of a sub-channel's watching (sequential histories only)
 	relayed   map[string][]string
 }
 
@@ -157,6 +158,8 @@ func (o step) String() string {
 		return fmt.Sprintf("pub%s%d", o.Ch, o.V)
 	case "stop":
 		return "stop" + o.Ch
+	case "start":
+		return fmt.Sprintf("start%s%d", o.Ch, o.V)
 	}
 	return fmt.Sprintf("%s.%s%d", o.Ch, o.Kind, o.V)
 }
@@ -242,7 +245,7 @@ func exec(t *testing.T, ssc schedrun.Scenario, o vsched.Options) (*vsched.Sched,
 			vsched.GoNamed("script", func() {
 				for _, st := range sc.script {
 					switch st.Kind {
-					case "pub", "stop":
+					case "pub", "stop", "start":
 						doClient(cop{st.Kind, st.Ch, st.V})
 					default:
 						doChain(eop{st.Ch, st.Kind, st.V})
@@ -275,6 +278,30 @@ func exec(t *testing.T, ssc schedrun.Scenario, o vsched.Options) (*vsched.Sched,
 					w.tick()
 					r.ret = w.clock
 					w.stops = append(w.stops, r)
+				case "start": // watch a de-registered sub-channel again, starting from its newest transaction
+					w.tick()
+					r := stopRec{ch: o.Ch, call: w.clock}
+					s0 := tx(o.Ch, o.V)
+					pub, ev, err := wt.StartWatchingSubChannel(ctx, pp.ID(), channel.SignedState{Params: subParams[o.Ch], State: s0.State, Sigs: s0.Sigs})
+					if err != nil {
+						r.err = "err:" + err.Error()
+					} else {
+						pubs[o.Ch], evs[o.Ch] = pub, ev
+						gen := fmt.Sprintf("%s#%d", o.Ch, len(w.starts)+2) // a new event stream
+						vsched.GoNamed("reader-"+gen, func() {
+							for {
+								e, ok := vsched.Recv2(ev.EventStream())
+								if !ok {
+									return
+								}
+								w.relayed[gen] = append(w.relayed[gen], fmt.Sprintf("%s:%d", evKind(e), e.Version()))
+							}
+						})
+					}
+					w.tick()
+					r.ret = w.clock
+					w.starts = append(w.starts, r)
+					w.pubs = append(w.pubs, pubRec{o.Ch, o.V, r.call, r.ret})
 				}
 			}
 		}
@@ -336,19 +363,29 @@ type verdict struct{ clause, detail string }
 func (w *world) check(sc scenario) []verdict {
 	var v []verdict
 	add := func(clause, format string, a ...any) { v = append(v, verdict{clause, fmt.Sprintf(format, a...)}) }
-	// a successful stop of ch (or of its parent) was CALLED before time `before`
-	stoppedOK := func(ch string, before int) bool {
-		for _, s := range w.stops {
-			if s.err == "" && (s.ch == ch || s.ch == "P") && s.call < before {
+	// a successful stop of ch (or of its parent) was CALLED before time `before` and is not
+	// superseded by a re-start of ch that had returned by time `at`
+	restarted := func(ch string, after, by int) bool {
+		for _, st := range w.starts {
+			if st.ch == ch && st.err == "" && st.call > after && st.ret <= by {
 				return true
 			}
 		}
 		return false
 	}
-	everStopped := func(ch string) bool { return stoppedOK(ch, 1<<30) }
-	stopTime := func(ch string) int {
+	stoppedFor := func(ch string, before, at int) bool {
 		for _, s := range w.stops {
-			if s.ch == ch && s.err == "" {
+			if s.err == "" && (s.ch == ch || s.ch == "P") && s.call < before && !(s.ch == ch && restarted(ch, s.call, at)) {
+				return true
+			}
+		}
+		return false
+	}
+	everStopped := func(ch string) bool { return stoppedFor(ch, 1<<30, 1<<30) }
+	// stopTime: call time of the successful stop of ch that is in force at time `at` (1<<30: live)
+	stopTime := func(ch string, at int) int {
+		for _, s := range w.stops {
+			if s.ch == ch && s.err == "" && s.call < at && !restarted(ch, s.call, at) {
 				return s.call
 			}
 		}
@@ -400,7 +437,7 @@ func (w *world) check(sc scenario) []verdict {
 			case r.subIDs[i] != n:
 				add("register-substate-order", "sub-state %d belongs to %s, the parent locks %s at this index", i, r.subIDs[i], n)
 			default:
-				lo := lower(n, min(trig.at, stopTime(n)))
+				lo := lower(n, min(trig.at, stopTime(n, trig.at)))
 				if uint64(r.subs[i]) < lo || uint64(r.subs[i]) > upper(n, r.at) {
 					add("register-stale-substate", "Register with %s v%d outside [%d,%d]", n, r.subs[i], lo, upper(n, r.at))
 				}
@@ -434,7 +471,7 @@ func (w *world) check(sc scenario) []verdict {
 				after++
 			}
 		}
-		if !everStopped(d.ch) && ve < lower(d.ch, d.at) && int64(ve) >= maxReg && after == 0 {
+		if !stoppedFor(d.ch, 1<<30, d.at) && ve < lower(d.ch, d.at) && int64(ve) >= maxReg && after == 0 {
 			add("no-refutation", "%s registered with v%d on chain, newest published v%d, watcher registered nothing", d.ch, ve, lower(d.ch, d.at))
 		}
 	}
@@ -473,9 +510,14 @@ func (w *world) check(sc scenario) []verdict {
 					want++
 				}
 			}
-			for _, e := range w.relayed[ch] {
-				if strings.HasPrefix(e, kind+":") {
-					got++
+			for key, evs := range w.relayed { // all event streams of the channel (a re-start opens a new one)
+				if key != ch && !strings.HasPrefix(key, ch+"#") {
+					continue
+				}
+				for _, e := range evs {
+					if strings.HasPrefix(e, kind+":") {
+						got++
+					}
 				}
 			}
 			if got != want {
@@ -485,7 +527,21 @@ func (w *world) check(sc scenario) []verdict {
 	}
 	// a refused stop is reported as such, leaves the channel watched, and can be repeated
 	stopped := map[string]bool{}
-	for _, s := range w.stops {
+	ops := append([]stopRec{}, w.stops...)
+	for _, st := range w.starts {
+		st.err = "START:" + st.err
+		ops = append(ops, st)
+	}
+	sort.Slice(ops, func(i, j int) bool { return ops[i].call < ops[j].call })
+	for _, s := range ops {
+		if strings.HasPrefix(s.err, "START:") {
+			if s.err != "START:" {
+				add("restart-failed", "StartWatchingSubChannel(%s) after its de-registration returned %s", s.ch, s.err[6:])
+			} else {
+				stopped[s.ch] = false
+			}
+			continue
+		}
 		if s.ch != "P" {
 			if s.err == "" {
 				stopped[s.ch] = true
@@ -542,7 +598,7 @@ func check(ssc schedrun.Scenario, s *vsched.Sched, o any) []schedrun.Verdict {
 	if sc.script != nil {
 		var ks []string
 		for _, st := range sc.script {
-			if st.Kind == "pub" || st.Kind == "stop" {
+			if st.Kind == "pub" || st.Kind == "stop" || st.Kind == "start" {
 				ks = append(ks, st.Kind+st.Ch)
 			} else {
 				ks = append(ks, st.Ch+"."+st.Kind)
@@ -746,11 +802,22 @@ func scripts(maxLen int) (out []scenario) {
 			}
 			if !stopped {
 				gen(append(cur, step{"stop", "S", 0}), cp, cs, true, events)
+			} else if !restartedOnce(cur) {
+				gen(append(cur, step{"start", "S", cs}), cp, cs, false, events)
 			}
 		}
 		gen(nil, p0, 0, false, 0)
 	}
 	return out
+}
+
+func restartedOnce(cur []step) bool {
+	for _, st := range cur {
+		if st.Kind == "start" {
+			return true
+		}
+	}
+	return false
 }
 
 func lookup(n string) scenario {
